@@ -140,6 +140,8 @@ def gw_extra(n, s):
     s = min(s, n - 1)
     if s < 1:
         raise ValueError("no checkpoint for n>1")
+    if s == 1:
+        return n * (n - 1) // 2          # r = n - 1: same formula, without the linear search for r
     r = 1
     while not (comb(s + r - 1, s) < n <= comb(s + r, s)):
         r += 1
